@@ -111,6 +111,20 @@ POOL = [
     ("ResolveStringReferences", lambda: mw.ResolveStringReferencesMiddleware()),
 ]
 CONTAINERS = {"list": list, "tuple": tuple, "iterator": iter}
+def _default_encoding():
+    import locale
+
+    return locale.getpreferredencoding(False)
+
+
+def _encodable(text):
+    try:
+        text.encode(_default_encoding())
+        return True
+    except (UnicodeEncodeError, LookupError):
+        return False
+
+
 POSITIONS = ["parse_stack", "append_middleware", "unparse_stack", "prepend_middleware", "write_file.parse_stack", "write_file.append_middleware"]
 
 
@@ -205,6 +219,9 @@ def check_stack(pos, di, idxs, cname, acc, tmpdir):
                 exp = attempt(lambda: write(fold(fresh(idxs), base()), fmt()))
             else:
                 exp = attempt(lambda: write(fold(fresh(idxs) + default_unparse(), base()), fmt()))
+    if position.startswith("write_file") and got == ("raised", "UnicodeEncodeError") and exp[0] == "ok" and not _encodable(exp[1]):
+        acc.count("write_file_text_not_encodable_in_the_default_encoding")  # (see ASSUMPTIONS: open(path, "w") answers for the platform)
+        return
     acc.step(("doc", di, position), ("stack", idxs, cname), got if got[0] == "raised" else ("ok", hash(got[1])))
     acc.outcome(got if got[0] == "raised" else hash(repr(got[1])))
     if got != exp:
@@ -285,7 +302,7 @@ def check_files(acc, tmpdir):
                                         f.write(before)
                                 r = bibtexparser.write_file(path, lib(), **{k: fresh(v) for k, v in kw.items()}, **fk)
                                 with open(path, "rb") as f:
-                                    outs.append(f.read().decode())
+                                    outs.append(f.read().decode(_default_encoding()))
                             return (r, outs[0]) if all(o == outs[0] for o in outs) else (r, outs)
                         if target == "stringio":
                             s = io.StringIO()
@@ -306,6 +323,11 @@ def check_files(acc, tmpdir):
                         return (None, bibtexparser.write_string(lib(), **args))
 
                     got, exp = attempt(run), attempt(ref)
+                    if got == ("raised", "UnicodeEncodeError") and exp[0] != "raised" and target != "stringio" and not _encodable(exp[1][1]):
+                        # the process' default text encoding (a C locale without UTF-8 mode: ASCII) cannot hold the text:
+                        # open(path, "w") answers for the platform, see ASSUMPTIONS
+                        acc.count("write_file_text_not_encodable_in_the_default_encoding")
+                        continue
                     acc.step(("wfile", di, target), ("write_file", tuple(kw), with_fmt), got if got[0] == "raised" else hash(repr(got[1])))
                     if got != exp:
                         acc.violation({"oracle": "write_file_writes_what_write_string_returns", "target": target}, {"case": case, "observed": repr(got)[:400], "expected": repr(exp)[:400]})
@@ -1044,3 +1066,9 @@ def replay(case, acc):
 
 def unit_test(case):
     return "# argument position, document number, middleware stack (labels from mc/checks/c20.py POOL), container kind:\n# " + repr(case) + "\n"
+
+
+def ENV_SHARDS(tier):
+    """The broad, cheap families: run again in a fresh interpreter per environment (engine.run_environments)."""
+    return list(shards('quick'))
+
